@@ -1,9 +1,9 @@
 (* Props/C18.v — The depth limit is exact (and parse cost stays bounded: see the known finding).
-   Statements only; proofs in Proofs/DepthProofs.v, DepthDictProofs.v, DepthOptProofs.v.
+   Statements only; proofs in Proofs/DepthProofs.v, DepthDictProofs.v, DepthOptProofs.v, DepthUnionProofs.v.
    `ex` is the list of names the class excludes from additional keys (reflected from the real class:
    the theorems hold for any).  The depth suite of harness/c18.py checks on every run that the classes
    declared with the real library reflect to exactly node_decl_ex / dnode_decl_ex / onode_decl_ex. *)
-From UV Require Import Parse DepthSpec DepthProofs DepthDictProofs DepthOptProofs.
+From UV Require Import Parse DepthSpec DepthProofs DepthDictProofs DepthOptProofs DepthUnionProofs.
 Open Scope string_scope.
 Open Scope list_scope.
 Open Scope Z_scope.
@@ -44,6 +44,17 @@ Theorem C18_optional_exact :
      raises_parse (call_dataclass re (onode_world_ex ex (Some d)) fuel 0 None (to_val_c c))).
 Proof. exact onode_call. Qed.
 
+(* `class Node(Schema): __options__ = Options(max_depth=d); v: int; link: Union['Node', int, None] = None`:
+   a union with scalar arms; the chain may end in a node without link or in an int taken by the scalar arm (the exact-class
+   shortcut).  Exactness again: the int and None arms never let a too-deep (non-empty) mapping in, in any of the stages. *)
+Theorem C18_union_exact :
+  forall re ex d c fuel, 1 <= d -> (3 * ulength c <= fuel)%nat ->
+  (Z.of_nat (ulength c) <= d ->
+     call_dataclass re (unode_world_ex ex (Some d)) fuel 0 None (to_val_u c) = Ok (inst_u c)) /\
+  (d < Z.of_nat (ulength c) ->
+     raises_parse (call_dataclass re (unode_world_ex ex (Some d)) fuel 0 None (to_val_u c))).
+Proof. exact u_onode_call. Qed.
+
 (* the same at any nesting level k of an enclosing parse: levels add up *)
 Theorem C18_levels_add_up :
   forall re ex d, 1 <= d -> forall t n k caller,
@@ -82,4 +93,9 @@ Example C18_optional_nonvacuous :
   let c := CNext 1 (CNext 2 (CEnd 3)) in
   is_ok (call_dataclass (fun _ _ => false) (onode_world (Some 3)) 10 0 None (to_val_c c)) = true /\
   is_ok (call_dataclass (fun _ _ => false) (onode_world (Some 2)) 10 0 None (to_val_c c)) = false.
+Proof. vm_compute. split; reflexivity. Qed.
+Example C18_union_nonvacuous :
+  let c := UNext 1 (UNext 2 (UInt 3 7)) in
+  is_ok (call_dataclass (fun _ _ => false) (unode_world (Some 3)) 10 0 None (to_val_u c)) = true /\
+  is_ok (call_dataclass (fun _ _ => false) (unode_world (Some 2)) 10 0 None (to_val_u c)) = false.
 Proof. vm_compute. split; reflexivity. Qed.
